@@ -300,7 +300,7 @@ class Checker:
         for node_id, context in self._match(name, {}):
             node = self.model.nodes[node_id]
             if node.rule_name:
-                rule_name = node.rule_name
+                rule_name = list(node.rule_name)  # (the caller's to keep or edit: not the model's own list)
             else:
                 rule_name = ["#_" + str(node_id)]
             yield rule_name, self._context_to_name(context)
